@@ -302,6 +302,31 @@ func check(c Case) (string, string, outcome) {
 				}
 			}
 		}
+		// third axis (RemoveAll only, the helper that tolerates ErrNotExist by design): a primitive call on an entry BELOW
+		// the target answers "does not exist" -- what it reports when something else removed the entry in between --
+		// although the entry is still there. Tolerating that for the one entry is fine; reporting success for the whole
+		// operation while the target still exists is not.
+		if c.Op.K == "removeall" {
+			for i := 1; i <= n; i++ {
+				e := build(c)
+				hf := &masks.Hooks{FailAt: i, Vanished: true}
+				mf := masks.New(e.fs, set, hf)
+				fres := apply(mf, c.Op)
+				_, serr := hackpadfs.LstatOrStat(e.fs, c.Op.P)
+				e.close()
+				out.faults++
+				if fres.Hung || fres.Panic != "" {
+					return base + ":vanish-crash:" + key, fmt.Sprintf("%v on subset %s with primitive call %d (%s %q) answering ErrNotExist: %v", c.Op, key, i, hf.Fired, hf.FiredName, fres), out
+				}
+				if hf.Fired == "" || hf.FiredName == "" || hf.FiredName == c.Op.P {
+					continue
+				}
+				out.faultsFired++
+				if fres.OK() && serr == nil && c.Op.P != "." {
+					return base + ":vanish-swallowed:" + strings.ReplaceAll(hf.Fired, " ", ""), fmt.Sprintf("%v on subset %s: primitive call %d (%s %q) answered ErrNotExist for an entry that is still there; RemoveAll returned nil although %q still exists (calls %v)", c.Op, key, i, hf.Fired, hf.FiredName, c.Op.P, hf.Log), out
+				}
+			}
+		}
 	}
 	return "", "", out
 }
